@@ -110,6 +110,9 @@ def Q(tier, seed, level=None):
         [-x for x in g1],
         unit(jit(seed, "Q180", [2.0, -3.0, 6.0]) + [0.0]),
         unit(jit(seed, "Qsmall", [1e-3, -2e-3, 1.5e-3]) + [1.0]),  # small but non-zero rotation (defeats "isclose(w, 1)" shortcuts)
+        # planar robots stored in SE(3): pure yaw, qx = qy = 0 exactly (two different yaw angles so that pairs of them differ)
+        [0.0, 0.0, math.sin(0.35), math.cos(0.35)],
+        [0.0, 0.0, -math.sin(1.1), math.cos(1.1)],
     ]
     if tier == "thorough" or level == "full":
         seen = {tuple(q) for q in out}
